@@ -241,6 +241,23 @@ def run(facts, res):
             ready = all(c02.status_guard(cb, ss.block, facts) == "Ready" for cb in s.closures for ss in cg.sites[cb.path]
                         if any(t.path in appliers for t in ss.targets))
             ok = whole and ready
+        if not ok:
+            # loop form: `for delta in self.deltas.read().unwrap().values() { if status == Ready { apply } }`
+            for ss in cg.sites[b.path]:
+                if not any(t.path in appliers for t in ss.targets):
+                    continue
+                for l in lits_of(b, ss.block, facts):
+                    if l.kind == "variant" and l.variants == {"Some"} and not l.derived:
+                        pt = peel(l.term)
+                        if pt[0] == "call" and callee_name(pt) == "next" and pt[2] and cfg_of(b).is_loop_header(pt[3]):
+                            from ..common import iter_chain, PARTIAL_ADAPTERS
+                            chain = iter_chain(pt[2][0])
+                            names = [callee_name(x) for x in chain]
+                            src_ok = bool(chain) and any(callee_name(c_) in ("iter", "values", "into_iter") and c_[2] and
+                                                         any(x[0] == "field" and x[2] == "deltas" for x in walk(c_[2][0], False)) for c_ in chain)
+                            whole = src_ok and not (set(names) & (PARTIAL_ADAPTERS | {"flat_map", "map_while", "find", "find_map"}))
+                            if whole and c02.status_guard(b, ss.block, facts) == "Ready":
+                                ok = True
         res.instance("L4", "%s applies every block of the whole block map whose status is Ready: %s" % (name, ok), b.loc())
         if not ok:
             res.violation("L4", "%s|not-all-ready-blocks" % name, "%s does not apply every Ready block of the complete block map" % name, b.loc())
